@@ -168,4 +168,17 @@ theorem c19_gen_filter (w : Bool) (saved now : BitVec 64) :
   rw [BitVec.sle_eq_decide]
 
 
+/-- the judge's account of LoadCacheFrom's warm-up reads (two while the loaded weight is within a quarter of the limit, one
+    within half — Spec.Check, op `loadfrom`) uses the code's thresholds, and the limit is the smaller of the saved and the
+    target's maximum; the loop runs while the loaded weight is below it -/
+theorem c19_gen_thresholds (saved target size lim : BitVec 64) :
+    Gen.PersistSites.LoadCacheFrom_a2 target saved = Bv.umin saved target ∧
+    Gen.PersistSites.LoadCacheFrom_a3 lim = lim / 4#64 ∧
+    Gen.PersistSites.LoadCacheFrom_a4 (Gen.PersistSites.LoadCacheFrom_a3 lim) = 2#64 * (lim / 4#64) ∧
+    Gen.PersistSites.LoadCacheFrom_c1 lim size = BitVec.ult size lim ∧
+    Gen.PersistSites.LoadCacheFrom_c5 (lim / 4#64) size = BitVec.ule size (lim / 4#64) ∧
+    Gen.PersistSites.LoadCacheFrom_c6 (2#64 * (lim / 4#64)) size = BitVec.ule size (2#64 * (lim / 4#64)) :=
+  ⟨rfl, rfl, rfl, rfl, rfl, rfl⟩
+
+
 end OtterVerif.Props.C19
